@@ -33,16 +33,17 @@ contract("usim._core.loop.Interrupt.__init__",
 contract("usim._core.loop.Interrupt.revoke",
          params={"self": REF("Interrupt")},
          ensures=["self._revoked", "self.scheduled == old(self.scheduled)"],
-         modifies=["Interrupt._revoked@self"], props=["C03", "C01"], inline=True)
+         modifies=["Interrupt._revoked@self"], props=["C03", "C01"], inline=True, no_invariants=True,
+         note="primitive used in the middle of operations: callers inline it and answer for the invariants")
 
 contract("usim._core.loop.Interrupt.__bool__",
          params={"self": REF("Interrupt")}, returns=BOOL,
-         ensures=["result == (not self._revoked)"], modifies=[], pure=True, props=["C03"], inline=True)
+         ensures=["result == (not self._revoked)"], modifies=[], pure=True, props=["C03"], inline=True, no_invariants=True)
 
 contract("usim._core.loop.Activation.__bool__",
          params={"self": ACT}, returns=BOOL,
          ensures=["result == (self.signal is None or not self.signal._revoked)"],
-         modifies=[], pure=True, props=["C03", "C01"], inline=True)
+         modifies=[], pure=True, props=["C03", "C01"], inline=True, no_invariants=True)
 
 # ---- abstract wait queue (view): per key the FIFO of activations; length 0 = key absent
 model("WaitQueue", module="usim._core.waitq", fields={},
